@@ -97,9 +97,14 @@ func (e *Env) monitorSplit(st *Step, kind string, ok bool) {
 				continue
 			}
 			srw := new(big.Rat).Mul(new(big.Rat).SetFrac(a.W, bigP), share)
+			if srw.Sign() <= 0 {
+				continue // a zero reward weight takes no part in the split
+			}
 			parts = append(parts, part{a, srw, tt})
 			total.Add(total, srw)
 			resolution.Add(resolution, new(big.Rat).Quo(big.NewRat(1, 1_000_000_000_000_000_000), share))
+			// … and weight × share ratio is itself truncated to 18 digits
+			resolution.Add(resolution, new(big.Rat).Quo(big.NewRat(1, 1_000_000_000_000_000_000), srw))
 		}
 		if total.Sign() <= 0 || len(parts) < 2 {
 			continue
